@@ -30,6 +30,7 @@ type Profile struct {
 	OptsMask    flags.Options // option bits allowed to vary
 	OptsAlways  flags.Options
 	NParses     int
+	Mutate      float64 // share of the cases in which the program assigns public fields of the model between two calls
 	WithModel   bool
 	WithHelp    bool
 	InitVals    float64
@@ -43,7 +44,7 @@ type Profile struct {
 var defaultProfile = Profile{MaxFields: 5, MaxCmdDepth: 2, MaxSubs: 3, PosArgs: 0.3, Required: 0.15, Choices: 0.1, Defaults: 0.2,
 	Env: 0.1, Utf: 0.15, BadDecl: 0.03, ArgvLen: 7, Unknown: 0.08, Weird: 0.05, Handlers: true, Exec: true,
 	OptsMask: flags.HelpFlag | flags.PassDoubleDash | flags.IgnoreUnknown | flags.PrintErrors | flags.PassAfterNonOption,
-	NParses:  1, InitVals: 0.15, Namespaces: 0.3, ValueBad: 0.08, CmdWord: 0.15, SubOpt: 0.2}
+	NParses:  1, Mutate: 0.12, InitVals: 0.15, Namespaces: 0.3, ValueBad: 0.08, CmdWord: 0.15, SubOpt: 0.2}
 
 var typePool = []string{"str", "str", "str", "bool", "bool", "bool", "int", "int", "i8", "i16", "i32", "i64", "uint", "u8", "u16", "u32", "u64",
 	"f64", "f32", "dur", "Lstr", "Lstr", "Lint", "Lbool", "Li8", "Pstr", "Pint", "Pbool", "Mstr,int", "Mstr,str", "Mint,str", "Mstr,bool",
@@ -789,6 +790,115 @@ func GenParseCase(r *rand.Rand, p Profile) *Case {
 	if p.WithHelp {
 		c.Ops = append(c.Ops, Op{Kind: "help", Cols: termCols})
 	}
+	if g.chance(p.Mutate) && !real.dead {
+		g.mutateBetweenCalls(c, real)
+	}
 	c.Description = describeCase(c)
 	return c
+}
+
+// mutateBetweenCalls: after the operations so far (the parser has been used: whatever it remembers is filled in) the
+// program assigns public fields of the model — names, aliases, namespaces, marks, defaults, choices — and calls
+// again, with the old and the new spellings on the line.  A parser must answer to what its model says NOW.
+func (g *gen) mutateBetweenCalls(c *Case, real *Real) {
+	r := g.r
+	type oref struct {
+		uid, gi, oi int
+		o           *flags.Option
+	}
+	var opts []oref
+	var grps [][2]int
+	cmds := real.commandsPreorder()
+	for _, cmd := range cmds {
+		for gi, grp := range allGroups(cmd) {
+			if grp.ShortDescription == "Help Options" {
+				continue
+			}
+			grps = append(grps, [2]int{real.uids[cmd], gi})
+			for oi, o := range grp.Options() {
+				opts = append(opts, oref{real.uids[cmd], gi, oi, o})
+			}
+		}
+	}
+	if len(c.Ops) == 0 || c.Ops[len(c.Ops)-1].Kind != "parse" {
+		c.Ops = append(c.Ops, Op{Kind: "parse", Args: g.genArgv(real)})
+	}
+	if r.Intn(3) == 0 {
+		c.Ops = append(c.Ops, Op{Kind: "help", Cols: termCols})
+	}
+	var muts []BuildOp
+	var extra []string
+	for k := 1 + r.Intn(2); k > 0; k-- {
+		switch x := r.Intn(10); {
+		case x < 3 && len(opts) > 0:
+			o := opts[r.Intn(len(opts))]
+			if o.o.LongName == "" {
+				continue
+			}
+			nn := []string{"zz-renamed", "zz2", "färg2"}[r.Intn(3)]
+			muts = append(muts, BuildOp{Kind: "setopt", Target: o.uid, Gi: o.gi, Oi: o.oi, Attr: "long", Vals: []string{hx(nn)}})
+			extra = append(extra, "--"+nn, "--"+o.o.LongNameWithNamespace())
+		case x < 4 && len(opts) > 0:
+			o := opts[r.Intn(len(opts))]
+			nn := []string{"Z", "9", "ж"}[r.Intn(3)]
+			muts = append(muts, BuildOp{Kind: "setopt", Target: o.uid, Gi: o.gi, Oi: o.oi, Attr: "short", Vals: []string{hx(nn)}})
+			extra = append(extra, "-"+nn)
+			if o.o.ShortName != 0 {
+				extra = append(extra, "-"+string(o.o.ShortName))
+			}
+		case x < 6 && len(cmds) > 1:
+			cmd := cmds[1+r.Intn(len(cmds)-1)]
+			// (the harness' executable commands report the name they were created under: those keep theirs)
+			isExec := false
+			for _, ec := range real.execs {
+				if ec.uid == real.uids[cmd] {
+					isExec = true
+				}
+			}
+			if r.Intn(2) == 0 && !isExec {
+				muts = append(muts, BuildOp{Kind: "setcmd", Target: real.uids[cmd], Attr: "name", Vals: []string{hx("zzcmd")}})
+				extra = append(extra, "zzcmd", cmd.Name)
+			} else {
+				muts = append(muts, BuildOp{Kind: "setcmd", Target: real.uids[cmd], Attr: "aliases", Vals: []string{"1", hx("zzalias")}})
+				extra = append(extra, "zzalias")
+				extra = append(extra, cmd.Aliases...)
+			}
+		case x < 7 && len(grps) > 0:
+			gr := grps[r.Intn(len(grps))]
+			muts = append(muts, BuildOp{Kind: "setgrp", Target: gr[0], Gi: gr[1], Attr: "ns", Vals: []string{hx("zzns")}})
+		case x < 8 && len(opts) > 0:
+			o := opts[r.Intn(len(opts))]
+			muts = append(muts, BuildOp{Kind: "setopt", Target: o.uid, Gi: o.gi, Oi: o.oi, Attr: "default", Vals: []string{hx([]string{"7", "x1", "zz"}[r.Intn(3)])}})
+		case x < 9 && len(opts) > 0:
+			o := opts[r.Intn(len(opts))]
+			muts = append(muts, BuildOp{Kind: "setopt", Target: o.uid, Gi: o.gi, Oi: o.oi, Attr: "required", Vals: []string{hx([]string{"0", "1"}[r.Intn(2)])}})
+		default:
+			if len(cmds) > 1 {
+				cmd := cmds[1+r.Intn(len(cmds)-1)]
+				muts = append(muts, BuildOp{Kind: "setcmd", Target: real.uids[cmd], Attr: "hidden", Vals: []string{[]string{"0", "1"}[r.Intn(2)]}})
+			}
+		}
+	}
+	if len(muts) == 0 {
+		return
+	}
+	for i := range muts {
+		m := muts[i]
+		c.Ops = append(c.Ops, Op{Kind: "build", B: &m})
+	}
+	argv := g.genArgv(real)
+	for _, e := range extra {
+		if e == "" || r.Intn(3) == 0 {
+			continue
+		}
+		at := r.Intn(len(argv) + 1)
+		if strings.HasPrefix(e, "--") && r.Intn(2) == 0 {
+			e += "=1"
+		}
+		argv = append(argv[:at:at], append([]string{e}, argv[at:]...)...)
+	}
+	c.Ops = append(c.Ops, Op{Kind: "parse", Args: argv})
+	if r.Intn(4) == 0 {
+		c.Ops = append(c.Ops, Op{Kind: "help", Cols: termCols})
+	}
 }
